@@ -1,0 +1,63 @@
+//go:build verif
+
+package kv
+
+import (
+	"os"
+
+	"github.com/lindb/common/pkg/fileutil"
+	"github.com/lindb/common/pkg/ltoml"
+
+	"github.com/lindb/lindb/pkg/lockers"
+)
+
+// Simulation hooks (build tag verif).
+
+type verifLock struct{}
+
+func (verifLock) Lock() error   { return nil }
+func (verifLock) Unlock() error { return nil }
+
+// VerifSetFS wraps the package's file-system seams with pre(op, path); nil restores them.
+// The store lock becomes a no-op: a killed incarnation must not keep the lock of its store.
+func VerifSetFS(pre func(op, path string)) {
+	if pre == nil {
+		encodeTomlFunc = ltoml.EncodeToml
+		mkDirFunc = fileutil.MkDirIfNotExist
+		removeFunc = os.Remove
+		removeDirFunc = fileutil.RemoveDir
+		newFileLockFunc = lockers.NewFileLock
+		return
+	}
+	encodeTomlFunc = func(fileName string, v interface{}) error {
+		pre("writetoml", fileName)
+		return ltoml.EncodeToml(fileName, v)
+	}
+	mkDirFunc = func(path string) error {
+		if !fileutil.Exist(path) {
+			pre("mkdir", path)
+		}
+		return fileutil.MkDirIfNotExist(path)
+	}
+	removeFunc = func(name string) error {
+		pre("remove", name)
+		return os.Remove(name)
+	}
+	removeDirFunc = func(path string) error {
+		pre("remove", path)
+		return fileutil.RemoveDir(path)
+	}
+	newFileLockFunc = func(string) (lockers.FileLock, error) { return verifLock{}, nil }
+}
+
+// VerifNewStoreManager returns a fresh store manager (a restarted process has no open stores).
+func VerifNewStoreManager() StoreManager { return newStoreManager() }
+
+// VerifStoreCompact runs one tick of the store's background compaction/rollup check.
+func VerifStoreCompact(s Store) { s.compact() }
+
+// VerifFamilyBusy reports whether a background compaction or rollup of the family is running.
+func VerifFamilyBusy(f Family) bool {
+	fam := f.(*family)
+	return fam.compacting.Load() || fam.rolluping.Load()
+}
